@@ -170,6 +170,12 @@ def fmtStep (selfCols row : Nat) (wrapping : Bool) (st : FmtSt) (p : Nat × Cell
     fmtCellStep selfCols row wrapping { st with prevWasWide := cell.isWide } col cell
       (!(cell.eq Cell.new))
 
+/-- `self.cells.get(start) == Some(&default_cell)` -/
+def firstIsDefault (r : Row) (start : Nat) : Bool :=
+  match r.cells[start]? with
+  | some firstCell => firstCell.eq Cell.new
+  | none => false
+
 /-- returns `(bytes, (prev_pos, prev_attrs))` -/
 def writeContentsFormatted (r : Row) (start width row : Nat) (wrapping : Bool)
     (prevPos : Option Pos) (prevAttrs : Option Attrs) : M (List Nat × Pos × Attrs) := do
@@ -183,11 +189,8 @@ def writeContentsFormatted (r : Row) (start width row : Nat) (wrapping : Bool)
         pure ({ row := r1, col := r.cols } : Pos)
       else pure ({ row := row, col := start } : Pos)
   let prevAttrs := prevAttrs.getD Attrs.default
-  let firstIsDefault := match r.cells[start]? with
-    | some firstCell => firstCell.eq defaultCell
-    | none => false
   let st0 : FmtSt :=
-    if wrapping && firstIsDefault then
+    if wrapping && r.firstIsDefault start then
       let da := defaultCell.attrs
       let (sg, pa) :=
         if prevAttrs != da then (da.writeEscapeCodeDiff prevAttrs, da) else ([], prevAttrs)
@@ -206,12 +209,12 @@ def diffStep (selfCols row : Nat) (wrapping : Bool) (st : FmtSt) (p : Nat × (Ce
     fmtCellStep selfCols row wrapping { st with prevWasWide := cell.isWide } col cell
       (!(cell.eq prevCell))
 
-/-- returns `(bytes, (prev_pos, prev_attrs))` -/
-def writeContentsDiff (r prev : Row) (start width row : Nat) (wrapping prevWrapping : Bool)
-    (prevPos : Pos) (prevAttrs : Attrs) : M (List Nat × Pos × Attrs) := do
-  let st0 : FmtSt ←
-    match r.cells[start]?, prev.cells[start]? with
-    | some firstCell, some prevFirstCell =>
+/-- the part of `write_contents_diff` before the cell loop: when the previous row has just become
+wrapped, re-type this row's first cell so that the terminal wraps onto this row -/
+def diffStart (r prev : Row) (start row : Nat) (wrapping prevWrapping : Bool) (prevPos : Pos)
+    (prevAttrs : Attrs) : M FmtSt :=
+  match r.cells[start]?, prev.cells[start]? with
+  | some firstCell, some prevFirstCell =>
     if wrapping && !prevWrapping && firstCell.eq prevFirstCell && prevPos.row + 1 == row
         && prevPos.col ≥ r.cols - (if prevFirstCell.isWide then 1 else 0) then do
       let fa := firstCell.attrs
@@ -227,11 +230,13 @@ def writeContentsDiff (r prev : Row) (start width row : Nat) (wrapping prevWrapp
     else
       pure ({ prevWasWide := false, prevPos := prevPos, prevAttrs := prevAttrs, erase := none,
               out := [] } : FmtSt)
-    | _, _ =>
-      pure ({ prevWasWide := false, prevPos := prevPos, prevAttrs := prevAttrs, erase := none,
-              out := [] } : FmtSt)
-  let st ← (window (r.cells.zip prev.cells) start width).foldlM (diffStep r.cols row wrapping) st0
-  let st := fmtFinish r.cols row wrapping st
+  | _, _ =>
+    pure ({ prevWasWide := false, prevPos := prevPos, prevAttrs := prevAttrs, erase := none,
+            out := [] } : FmtSt)
+
+/-- the part of `write_contents_diff` after the cell loop: when the row's wrap flag changed, re-type
+(and, when it became unwrapped, first erase) the last character of the row -/
+def diffEnd (r prev : Row) (row : Nat) (st : FmtSt) : M (List Nat × Pos × Attrs) :=
   if (!r.wrapped && prev.wrapped) || (!prev.wrapped && r.wrapped) then do
     let c1 ← subM 343 r.cols 1
     let lastCell ← getM 344 r.cells c1
@@ -253,6 +258,13 @@ def writeContentsDiff (r prev : Row) (start width row : Nat) (wrapping prevWrapp
             { row := endPos.row, col := endPos.col + (if endCell.isWide then 2 else 1) }, pa)
     else pure (out, endPos, st.prevAttrs)
   else pure (st.out, st.prevPos, st.prevAttrs)
+
+/-- returns `(bytes, (prev_pos, prev_attrs))` -/
+def writeContentsDiff (r prev : Row) (start width row : Nat) (wrapping prevWrapping : Bool)
+    (prevPos : Pos) (prevAttrs : Attrs) : M (List Nat × Pos × Attrs) := do
+  let st0 ← diffStart r prev start row wrapping prevWrapping prevPos prevAttrs
+  let st ← (window (r.cells.zip prev.cells) start width).foldlM (diffStep r.cols row wrapping) st0
+  diffEnd r prev row (fmtFinish r.cols row wrapping st)
 
 end Row
 end Vt
